@@ -148,10 +148,11 @@ def matchIdent (P : PyUnicode) : List Char → Bool
   | [] => false
   | c :: cs => pyIsWordStart P c && cs.all (pyIsWord P)
 
-/-- `([1-9]\d* | 0)` full match -/
-def matchNum (P : PyUnicode) : List Char → Bool
+/-- `([1-9][0-9]{0,18} | 0)` full match: ASCII digits, at most 19 of them (fits in 64 bits) -/
+def matchNum : List Char → Bool
   | [] => false
-  | c :: cs => (c = '0' && cs.isEmpty) || (49 ≤ c.toNat && c.toNat ≤ 57 && cs.all (pyIsDecimal P))
+  | c :: cs => (c = '0' && cs.isEmpty) ||
+      (49 ≤ c.toNat && c.toNat ≤ 57 && cs.all isDigit && decide (cs.length ≤ 18))
 
 /-- `'::' in string` -/
 def hasNamespaceSep (s : List Char) : Bool := EdbVerif.Lex.hasNamespaceSep s
@@ -164,7 +165,7 @@ def dunderStd : List Char := ['_', '_', 's', 't', 'd', '_', '_']
 def needsQuoting (P : PyUnicode) (s : List Char) (allowReserved allowNum : Bool) : Bool :=
   if s.isEmpty || s.head? = some '@' || hasNamespaceSep s then false
   else
-    let isalnum := (matchIdent P s || (allowNum && matchNum P s)) &&
+    let isalnum := (matchIdent P s || (allowNum && matchNum s)) &&
       (match s with
        | [] => false
        | c :: _ => c = '_' || pyIsAlpha P c || pyIsDecimal P c)
@@ -181,8 +182,11 @@ def quoteIdent (P : PyUnicode) (s : List Char) (force allowReserved allowNum : B
 
 /-! ### `edb/edgeql/codegen.py` -/
 
-/-- `param_to_str` -/
-def paramToStr (P : PyUnicode) (s : List Char) : List Char := '$' :: quoteIdent P s false true true
+/-- `param_to_str`: after `$` the lexer continues a bare name only over ASCII
+    digits, `_` and alphabetic characters; anything else forces back-quotes -/
+def paramToStr (P : PyUnicode) (s : List Char) : List Char :=
+  let force := !s.isEmpty && !s.all (fun c => c = '_' || pyIsAlpha P c || isDigit c)
+  '$' :: quoteIdent P s force true true
 
 
 /-- `_NON_PRINTABLE_RE`:
@@ -288,5 +292,39 @@ def edgedbNameToPgName (hash : List Char → List Char) (name : List Char) (pl :
   if maxNameLength ≤ pl then none
   else if name.length ≤ maxNameLength - pl then some name
   else some (pgNameHashed (hash name) name pl)
+
+/-! ### dbops: dollar tags chosen against the body, `COMMENT ON` splices -/
+
+/-- `str(n)` for a natural number: decimal digits, least significant first -/
+def revDecAux : Nat → Nat → List Char
+  | 0, n => [Char.ofNat (48 + n % 10)]
+  | f + 1, n => if n < 10 then [Char.ofNat (48 + n)] else Char.ofNat (48 + n % 10) :: revDecAux f (n / 10)
+
+def decStr (n : Nat) : List Char := (revDecAux n n).reverse
+
+/-- `PLTopBlock.to_string`: `$__$`, then `$__1$`, `$__2$`, … -/
+def doTagOf (n : Nat) : List Char :=
+  '$' :: '_' :: '_' :: (if n = 0 then [] else decStr n) ++ ['$']
+
+/-- `CreateFunction.code`: `$____funcbody____$`, then `$____funcbody1____$`, … -/
+def funcTagOf (n : Nat) : List Char :=
+  '$' :: ['_', '_', '_', '_', 'f', 'u', 'n', 'c', 'b', 'o', 'd', 'y'] ++
+    (if n = 0 then [] else decStr n) ++ ['_', '_', '_', '_'] ++ ['$']
+
+/-- `tag, n = …, 0; while tag in body + tag[:-1]: n += 1; tag = …` on fuel -/
+def tagLoop (tg : Nat → List Char) (body : List Char) : Nat → Nat → Option (List Char)
+  | 0, _ => none
+  | f + 1, n =>
+    if contains (tg n) (body ++ (tg n).dropLast) then tagLoop tg body f (n + 1) else some (tg n)
+
+/-- the tag of the `DO` block around `body` (fuel never exhausted: `Lemmas/QuotePgTags.lean`) -/
+def doTag (body : List Char) : Option (List Char) := tagLoop doTagOf body (body.length + 2) 0
+/-- the tag around a function text -/
+def funcTag (body : List Char) : Option (List Char) := tagLoop funcTagOf body (body.length + 2) 0
+
+/-- `DBObject.get_id_in_literal` followed by the splice of `SetMetadata`:
+    `'COMMENT ON {object_type} {object_id} IS '` -/
+def commentOnStr (objType objId : List Char) : List Char :=
+  '\'' :: ("COMMENT ON ".toList ++ objType ++ [' '] ++ replaceChar '\'' ['\'', '\''] objId ++ " IS ".toList) ++ ['\'']
 
 end EdbVerif.Quote
